@@ -177,6 +177,7 @@ pub fn classify(msg: &str) -> &'static str {
         ("Cannot mix manual field", "format"),
         ("in format string", "format"),
         ("inside replacement field", "format"),
+        ("Dictionary key repeated", "value"),
         ("Substring", "value"),
         ("Empty separator", "value"),
         ("Negative left shift", "value"),
